@@ -580,6 +580,15 @@ func (o *Obligation) instantiate() (Term, []string) {
 			}
 			parts := []Term{q.Text}
 			seenI := map[Term]bool{}
+			for _, w := range u.witnesses {
+				if w.pos <= o.Prefix {
+					inst := instQuant(q, w.t)
+					if !seenI[inst] {
+						seenI[inst] = true
+						parts = append(parts, inst)
+					}
+				}
+			}
 			for _, off := range q.Offs {
 				for _, c := range cands {
 					inst := instQuant(q, "(- "+c+" "+off+")")
@@ -666,6 +675,15 @@ func (o *Obligation) instantiate() (Term, []string) {
 				}
 			}
 			continue
+		}
+		for _, w := range u.witnesses {
+			if w.pos <= o.Prefix {
+				inst := strings.ReplaceAll(h.F, h.q.Text, instQuant(h.q, w.t))
+				if !done[inst] {
+					done[inst] = true
+					extra = append(extra, "(assert "+inst+")")
+				}
+			}
 		}
 		offs := map[Term]bool{}
 		for _, off := range h.q.Offs {
